@@ -368,9 +368,242 @@ def _log_append(ctx, it, obj, a, k):
 VStmtLog.methods = {"append": _log_append}
 
 
+# ---- SelfDependencyEliminator.map_statement: provenance of names, ids, guards and dependencies ----------------
+class VFreshVar(V):
+    """exactly the value returned by self.var_name_gen(...) (A-UNG: outside every name of the phase tree)"""
+    ty = None
+
+
+class VFreshId(V):
+    ty = None
+
+
+class VVarOf(V):
+    ty = None
+
+    def __init__(self, of):
+        self.of = of
+
+
+class VLog(V):
+    """a list under construction; ok = every element appended so far has the provenance the contract expects"""
+    ty = None
+
+    def __init__(self, kind, ok, closed=None):
+        self.kind, self.ok = kind, ok
+        self.closed = closed if closed is not None else z3.BoolVal(False)   # the rewritten statement was appended (last)
+
+    def fresh_like(self, ctx, base):
+        return VLog(self.kind, z3.Bool(fresh_name(base + "_ok")), z3.Bool(fresh_name(base + "_closed")))
+
+
+class VTempStmt(V):
+    ty = None
+
+
+class VFinalStmt(V):
+    ty = None
+
+    def __init__(self, ok):
+        self.ok = ok
+
+
+class VMapped(V):
+    ty = None
+
+    def __init__(self, ok):
+        self.ok = ok
+
+
+class VSdStmt(V):
+    """the statement being rewritten"""
+    ty = None
+
+
+class SelfDep(FunctionContract):
+    prop = PROP
+    relpath = REL
+    qualname = "SelfDependencyEliminator.map_statement"
+    prune_quantified = False
+
+    def __init__(self):
+        self.R = z3.Const("read_variables", NameSet)
+        self.W = z3.Const("written_variables", NameSet)
+
+    def params(self, ctx):
+        ctx.env["self"] = VObj(TObj("Eliminator", {}), {
+            "var_name_gen": VFunc("var_name_gen", lambda ctx, it, a, k: VFreshVar()),
+            "stmt_id_gen": VFunc("stmt_id_gen", lambda ctx, it, a, k: VFreshId())})
+        ctx.env["stmt"] = VSdStmt()
+
+    def _targets(self):
+        if not hasattr(self, "_lt"):
+            self._lt = {}
+            for n in pyast.walk(self.load().node):
+                if isinstance(n, pyast.Assign) and isinstance(n.value, pyast.List) and len(n.targets) == 1 \
+                        and isinstance(n.targets[0], pyast.Name):
+                    self._lt[(n.value.lineno, n.value.col_offset)] = n.targets[0].id
+        return self._lt
+
+    def list_literal(self, ctx, it, e):
+        if len(e.elts) == 1:
+            v = ctx.deref(it.eval(e.elts[0]))
+            return VPy("[stmt]" if isinstance(v, VSdStmt) else "[?]")
+        if e.elts:
+            raise Unsupported("list literal")
+        tgt = self._targets().get((e.lineno, e.col_offset))
+        if tgt not in ("substs", "tmp_stmt_ids", "new_statements"):
+            raise Unsupported("L%s: empty list assigned to %r" % (e.lineno, tgt))
+        return ctx.alloc(VLog(tgt, z3.BoolVal(True)))
+
+    def getattr_hook(self, ctx, it, obj, name):
+        o = ctx.deref(obj)
+        if isinstance(o, VSdStmt):
+            if name == "get_read_variables":
+                return VFunc(name, lambda ctx, it, a, k: VSet(NAMESET, self.R))
+            if name == "get_written_variables":
+                return VFunc(name, lambda ctx, it, a, k: VSet(NAMESET, self.W))
+            if name == "condition":
+                return VPy("<guard of stmt>")
+            if name == "depends_on":
+                return VDeps("base")
+            if name == "map_expressions":
+                return VFunc(name, self.m_map_expressions)
+        if isinstance(o, VMapped) and name == "copy":
+            return VFunc(name, lambda ctx, it, a, k: self.m_copy(ctx, it, o, a, k))
+        if isinstance(o, VElem) and o.ty is VARNAME and name == "replace":
+            return VFunc(name, lambda ctx, it, a, k: VPy("<text derived from the variable name>"))
+        if isinstance(o, VPy) and name == "replace":
+            return VFunc(name, lambda ctx, it, a, k: VPy("<text derived from the variable name>"))
+        if isinstance(o, VFreshVar) and name == "replace":
+            # editing the generator's result gives a name the generator never checked
+            return VFunc(name, lambda ctx, it, a, k: VPy("<text derived from a fresh name: NOT known to be fresh>"))
+        if isinstance(o, VLog) and name == "append":
+            return VFunc(name, lambda ctx, it, a, k: self.m_append(ctx, it, obj, o, a))
+        return None
+
+    def binop_hook(self, ctx, it, op_, a, b):
+        if op_ is pyast.Add and isinstance(a, (VPy, VElem)) and isinstance(b, (VPy, VElem)) \
+                and not isinstance(a, VFreshVar) and not isinstance(b, VFreshVar):
+            return VPy("<seed text>")
+        if op_ is pyast.BitOr and isinstance(a, VDeps) and isinstance(b, VDeps):
+            return VDeps(a.tag + "|" + b.tag)
+        return None
+
+    def m_append(self, ctx, it, ref, log, args):
+        x = ctx.deref(args[0])
+        if log.kind == "substs":
+            good = (isinstance(x, VTuple) and len(x.items) == 2 and isinstance(x.items[1], VVarOf)
+                    and isinstance(x.items[1].of, VFreshVar) and x.items[1].of is ctx.env.get("$fresh_of_iteration")
+                    and isinstance(x.items[0], VElem) and x.items[0].t.eq(ctx.loop_extra[0]["$x"].t))
+            new = VLog(log.kind, And(log.ok, z3.BoolVal(bool(good))))
+        elif log.kind == "tmp_stmt_ids":
+            good = isinstance(x, VFreshId) and x is ctx.env.get("$fresh_id_of_iteration")
+            new = VLog(log.kind, And(log.ok, z3.BoolVal(bool(good))))
+        else:
+            if isinstance(x, VTempStmt):
+                # temporaries come before the rewritten statement
+                new = VLog(log.kind, And(log.ok, Not(log.closed)), log.closed)
+            elif isinstance(x, VFinalStmt):
+                new = VLog(log.kind, And(log.ok, x.ok, Not(log.closed)), z3.BoolVal(True))
+            else:
+                new = VLog(log.kind, z3.BoolVal(False), log.closed)
+        ctx.store(ref, new)
+        return NONE
+
+    def m_var(self, ctx, it, args, kw):
+        return VVarOf(ctx.deref(args[0]))
+
+    def m_gen_var(self, ctx, it, args, kw):
+        v = VFreshVar()
+        ctx.env["$fresh_of_iteration"] = v
+        return v
+
+    def m_gen_id(self, ctx, it, args, kw):
+        v = VFreshId()
+        ctx.env["$fresh_id_of_iteration"] = v
+        return v
+
+    def m_assign(self, ctx, it, args, kw):
+        a = [ctx.deref(x) for x in args]
+        k = {n: ctx.deref(v) for n, v in kw.items()}
+        O = lambda n, ok: ctx.oblige("temporary/%s@L%s" % (n, ctx.cur_line), z3.BoolVal(bool(ok)))   # noqa
+        O("its-assignee-is-exactly-the-name-the-generator-returned(fresh)",
+          len(a) >= 1 and a[0] is ctx.env.get("$fresh_of_iteration") and isinstance(a[0], VFreshVar))
+        O("it-is-not-subscripted", len(a) >= 2 and isinstance(a[1], VTuple) and not a[1].items)
+        O("it-copies-the-variable-that-is-read-and-written",
+          len(a) >= 3 and isinstance(a[2], VVarOf) and isinstance(a[2].of, VElem) and a[2].of.t.eq(ctx.loop_extra[0]["$x"].t))
+        O("it-carries-the-guard-of-the-statement", isinstance(k.get("condition"), VPy) and k["condition"].py == "<guard of stmt>")
+        O("its-id-is-exactly-the-id-the-generator-returned(fresh)", k.get("id") is ctx.env.get("$fresh_id_of_iteration")
+          and isinstance(k.get("id"), VFreshId))
+        O("it-depends-on-what-the-statement-depends-on", isinstance(k.get("depends_on"), VDeps) and k["depends_on"].tag == "base")
+        return VTempStmt()
+
+    def m_map_expressions(self, ctx, it, args, kw):
+        f = ctx.deref(args[0]) if args else None
+        txt = f.py[1] if isinstance(f, VPy) and isinstance(f.py, tuple) else None
+        shape = txt is not None and txt.replace(" ", "") in ("lambdaexpr:substitute(expr,dict(substs))",)
+        il = ctx.deref(kw.get("include_lhs")) if "include_lhs" in kw else None
+        lhs_kept = isinstance(il, VBool) and z3.is_false(z3.simplify(il.t))
+        substs = ctx.deref(ctx.env["substs"]) if "substs" in ctx.env else None
+        ok = And(z3.BoolVal(bool(shape and lhs_kept)), substs.ok if isinstance(substs, VLog) else z3.BoolVal(False))
+        return VMapped(ok)
+
+    def m_copy(self, ctx, it, mapped, args, kw):
+        k = {n: ctx.deref(v) for n, v in kw.items()}
+        guard = isinstance(k.get("condition"), VPy) and k["condition"].py == "<guard of stmt>"
+        deps = isinstance(k.get("depends_on"), VDeps) and k["depends_on"].tag == "base|tmp_ids"
+        ctx.oblige("rewritten/keeps-the-guard-of-the-statement@L%s" % ctx.cur_line, z3.BoolVal(bool(guard)))
+        ctx.oblige("rewritten/depends-on-the-old-dependencies-and-on-every-temporary(no-temporary-is-read-before-it-is-set)@L%s"
+                   % ctx.cur_line, z3.BoolVal(bool(deps)))
+        ctx.oblige("rewritten/reads-are-redirected-to-the-fresh-temporaries-and-the-assignee-is-untouched@L%s" % ctx.cur_line,
+                   mapped.ok)
+        return VFinalStmt(And(mapped.ok, z3.BoolVal(bool(guard and deps))))
+
+    def m_frozenset(self, ctx, it, args, kw):
+        a = ctx.deref(args[0])
+        if isinstance(a, VLog) and a.kind == "tmp_stmt_ids":
+            ctx.oblige("every-recorded-temporary-id-is-one-the-generator-returned@L%s" % ctx.cur_line, a.ok)
+            return VDeps("tmp_ids")
+        return VDeps("?")
+
+    def assign_hook(self, ctx, it, name, v):
+        return None
+
+    names = property(lambda self: {
+        "sorted": VFunc("sorted", lambda ctx, it, a, k: a[0]),
+        "var": VFunc("var", self.m_var), "Assign": VFunc("Assign", self.m_assign),
+        "frozenset": VFunc("frozenset", self.m_frozenset),
+        "substitute": VFunc("substitute", lambda ctx, it, a, k: VPy("<substituted>")),
+        "dict": VFunc("dict", lambda ctx, it, a, k: VPy("<dict>"))})
+
+    calls = property(lambda self: {"self.var_name_gen": self.m_gen_var, "self.stmt_id_gen": self.m_gen_id})
+
+    def inv(self, s):
+        return [("substitutions-map-each-variable-to-its-fresh-temporary", s.substs.ok),
+                ("recorded-ids-are-fresh", s.tmp_stmt_ids.ok),
+                ("only-temporaries-so-far", And(s.new_statements.ok, Not(s.new_statements.closed)))]
+
+    def prologue_var(self, ctx, it):
+        pass
+
+    loops = property(lambda self: {0: dict(shape="for var_name in sorted(read_and_written)", inv=self.inv)})
+
+    def ensures(self, st):
+        r = st.result
+        x = z3.Const("x", VarName)
+        disjoint = ForAll([x], Not(And(Select(self.R, x), Select(self.W, x))))
+        if isinstance(r, VPy):
+            return [("a-statement-is-returned-unchanged-only-if-it-reads-nothing-it-writes",
+                     And(z3.BoolVal(r.py == "[stmt]"), disjoint))]
+        if isinstance(r, VLog) and r.kind == "new_statements":
+            return [("returns-the-temporaries-followed-by-the-rewritten-statement", And(r.ok, r.closed))]
+        return [("returns-a-statement-list", z3.BoolVal(False))]
+
+
 def units():
     return [FunctionUnit(StructNames()), FunctionUnit(VarNameGenerator()), FunctionUnit(ApplyRewriter()),
-            FunctionUnit(IsolateCall())]
+            FunctionUnit(IsolateCall()), FunctionUnit(SelfDep())]
 
 
 LEVEL = "other"
@@ -381,7 +614,7 @@ TRUSTED_BASE = [
     "structural induction over the tree for get_names_in_ast_structure (recursive call by contract)",
 ]
 ASSUMPTIONS = [
-    "MIXED (category other): proved are the structural clauses for the functions listed (the fresh-name generator is seeded with every name of the phase tree: statements' read/write sets, guards, loop variables, loop bounds; isolate_call delegates with the arity the overridden mapper needs and its new statement carries the guard, the dependencies and fresh names). The other rewriters' map_statement / isolate_arg / map_if are NOT under contract.",
+    "MIXED (category other): proved are the structural clauses for the functions listed (the fresh-name generator is seeded with every name of the phase tree: statements' read/write sets, guards, loop variables, loop bounds; isolate_call delegates with the arity the overridden mapper needs and its new statement carries the guard, the dependencies and fresh names). SelfDependencyEliminator.map_statement is under a provenance contract (fresh names / ids are exactly the generators' results, guard and dependencies carried, temporaries first). isolate_arg, the isolators' map_statement and ExprIfThenElseExpander.map_if are NOT under contract.",
     "the semantic clause (every original variable keeps its value, the same external calls with the same arguments) is decided only by the bounded stand-in (independent tree-walking executor before/after each pass and in the Fortran pass order); finding D20 listed by fingerprint",
 ]
 EXPLANATION = ("MIXED. Proved: get_names_in_ast_structure returns every guard, loop-variable and loop-bound name of the tree (recursive, over "
